@@ -224,6 +224,7 @@ fn record_serde_fl<F: Fl>(opts: &HashMap<String, String>) -> Value {
 fn with_watchdog(f: impl FnOnce() -> Value + Send + 'static, ms: u64) -> Option<Value> {
     let (tx, rx) = mpsc::channel();
     std::thread::spawn(move || {
+        guard::expect_panics_on_this_thread();
         let _ = tx.send(f());
     });
     rx.recv_timeout(Duration::from_millis(ms)).ok()
